@@ -157,6 +157,18 @@ def sensor_set(ctx: Ctx, rng):
             mods["detectable_vismag"] = 13.5
         nid += 1
         add(_variant(g, nid, f"{g['name']} v{n}", **mods), "tiny", "main_init+variant")
+    # non-square rectangular fields of view (azimuth x elevation extents must not be interchangeable) and
+    # slow mounts (the slew budget separates "since the last tasking" from "since the start")
+    by_type = {t: next(g for g in ground if g["sensor"]["type"] == t and g["sensor"]["azimuth_range"][0] == 0.0)
+               for t in ("adv_radar", "optical", "radar")}
+    for n, (t, az_e, el_e, rate) in enumerate((("adv_radar", 20.0, 2.0, 0.1), ("optical", 2.0, 20.0, None),
+                                               ("radar", 7.0, 4.0, 0.5), ("adv_radar", 3.0, 12.0, 0.05))):
+        mods = {"tiny": True, "background_observations": True, "field_of_view": rect(az_e, el_e)}
+        if rate is not None:
+            mods["slew_rate"] = rate
+        nid += 1
+        add(_variant(by_type[t], nid, f"{by_type[t]['name']} rect{az_e:g}x{el_e:g}", **mods), "tiny",
+            "main_init+non-square FoV / slow mount")
     sid = 61000
     radars = [g for g in ground if g["sensor"]["type"] in ("radar", "adv_radar")]
     for n, s in enumerate(space):
@@ -168,6 +180,10 @@ def sensor_set(ctx: Ctx, rng):
             mods.update(minimum_range=300.0, maximum_range=40000.0)
         sid += 1
         add(_variant(s, sid, f"{s['name']} v{n}", **mods), "tiny", "sat_sensors+variant")
+        if n == 1:
+            sid += 1
+            add(_variant(s, sid, f"{s['name']} rect16x3 slow", tiny=True, background_observations=True,
+                         field_of_view=rect(16.0, 3.0), slew_rate=0.2), "tiny", "sat_sensors+non-square FoV / slow mount")
         if n % 2 == 0 or not ctx.quick:
             # a radar of the ground network hosted on this spacecraft (space-based radar)
             r = radars[(3 * n) % len(radars)]
@@ -243,6 +259,8 @@ class Runner:
         self.k = G.consts()
         self.Sun = Sun
         self.records, self.inputs = [], []
+        self.after = None
+        self.track = {}            # sensor id -> (boresight, time_last_tasked) tracked across steps (two_step)
         self.stats = {"obs": 0, "miss": {}, "bg_obs": 0, "undecided_values": 0, "attempts": 0}
 
     def host_kind(self, sa):
@@ -254,14 +272,20 @@ class Runner:
             raise tlc.MachineryError(f"host.datetime_epoch {sa.datetime_epoch} is not start+time {auth}")
         return G.Site(sa.eci_state, auth, self.k), auth
 
-    def attempt(self, sa, tgt, est_eci, bgs, tag, prior=None):
-        """One real collectObservations call -> one record (appended)."""
+    def attempt(self, sa, tgt, est_eci, bgs, tag, prior=None, tracked=None):
+        """One real collectObservations call -> one record (appended).
+
+        prior   = (boresight, time_last_tasked) the driver puts the sensor in (SensingAgent.updateInfo);
+        tracked = (boresight, time_last_tasked) the sensor MUST be in by the driver's own bookkeeping of the
+                  preceding taskings (chained calls): slew reachability is judged from it, not from what
+                  the implementation remembered.
+        """
         s = sa.sensors
         m = self.meta[sa.simulation_id]
         kind = m["cfg"]["sensor"]["type"]
         kind = str(getattr(kind, "value", kind))
         host = self.host_kind(sa)
-        P = G.sensor_params(s, kind, host)
+        P = G.sensor_params(s, kind, host, m["cfg"]["sensor"])
         if prior is not None:
             sa.updateInfo({"boresight": np.array(prior[0], float),
                            "time_last_tasked": type(s.time_last_tasked)(float(prior[1]))})
@@ -272,7 +296,10 @@ class Runner:
         now = float(sa.time)
         est = np.asarray(est_eci, float).reshape(6)
         Lp = site.look(est)
-        slew = G.c_slew(b0, Lp, P["slew_rate"], now - t0)
+        if tracked is None:
+            slew = G.c_slew(b0, Lp, P["slew_rate"], now - t0)
+        else:
+            slew = G.c_slew(np.asarray(tracked[0], float), Lp, P["slew_rate"], now - float(tracked[1]))
         targets = [tgt, *bgs]
         looks, vecs = [], []
         for a in targets:
@@ -287,7 +314,8 @@ class Runner:
                   "estimate_eci": est.tolist(), "prior_boresight": b0.tolist(), "prior_time_last_tasked": t0,
                   "targets": [{"id": a.simulation_id, "eci": [float(v) for v in a.eci_state],
                                "area": float(a.visual_cross_section), "refl": float(a.reflectivity)} for a in targets],
-                  "pointing_azel": [Lp["az"], Lp["el"]],
+                  "pointing_azel": [Lp["az"], Lp["el"]], "pointing_sez": Lp["sez"].tolist(),
+                  "tracked_prior": None if tracked is None else [np.asarray(tracked[0], float).tolist(), float(tracked[1])],
                   "target_azelrng": [[L["az"], L["el"], L["rng"]] for L in looks]}
         # ---------------- the real call
         ret = s.collectObservations(est, tgt, list(bgs))
@@ -325,6 +353,13 @@ class Runner:
                              "meas": meas_detail, "fov": list(P["fov"])}
         self.records.append(rec)
         self.inputs.append(inputs)
+        # the state the sensor must be in now, by the driver's own bookkeeping
+        if slew == 1:
+            self.after = (Lp["sez"].copy(), now)
+        elif slew == 0:
+            self.after = (b0, t0) if tracked is None else (np.asarray(tracked[0], float), float(tracked[1]))
+        else:
+            self.after = (b1.copy(), float(t1))
         # ---------------- bookkeeping
         st = self.stats
         st["attempts"] += 1
@@ -435,7 +470,8 @@ def sweep(run: Runner, rng, per_sensor: int, max_bg: int):
             mode = n % 4
             if mode == 1:            # estimate displaced by a fraction of the field of view
                 kind = run.meta[sa.simulation_id]["cfg"]["sensor"]["type"]
-                P = G.sensor_params(s, str(getattr(kind, "value", kind)), run.host_kind(sa))
+                P = G.sensor_params(s, str(getattr(kind, "value", kind)), run.host_kind(sa),
+                                    run.meta[sa.simulation_id]["cfg"]["sensor"])
                 half = (P["fov"][1] if P["fov"][0] == "conic" else min(P["fov"][1], P["fov"][2])) / 2.0
                 L = site.look(tgt.eci_state)
                 frac = rng.choice((0.5, 0.98, 1.02, 1.5))
@@ -453,6 +489,48 @@ def sweep(run: Runner, rng, per_sensor: int, max_bg: int):
         sa.updateInfo({"boresight": base[0], "time_last_tasked": type(s.time_last_tasked)(base[1])})
 
 
+def place_sez(site: G.Site, sez_unit, rng_km, vel):
+    """ECI state of the point at range rng_km along a unit vector given in the site's SEZ axes."""
+    d = rng_km * (sez_unit[1] * site.E - sez_unit[0] * site.N + sez_unit[2] * site.U)
+    return np.concatenate([site.R.T @ (site.s_ecef + d), np.asarray(vel, float)])
+
+
+def two_step(run: Runner, rng):
+    """Consecutive taskings of one sensor at DIFFERENT scenario times (truth-only scenario, nothing else
+    moves the sensor in between): the second pointing lies 0.6x / 1.4x the slew budget since the previous
+    tasking away from the previous pointing.  The previous pointing and time are the driver's own record."""
+    app = run.app
+    prim = next(iter(app.target_agents.values()))
+    saved = np.array(prim.eci_state, float).copy()
+    try:
+        for n, sa in enumerate(app.sensor_agents.values()):
+            sid = sa.simulation_id
+            if run.meta[sid]["origin"].endswith("twilight site"):
+                continue
+            s = sa.sensors
+            site, _ = run.site_of(sa)
+            now = float(sa.time)
+            rate = math.radians(float(run.meta[sid]["cfg"]["sensor"]["slew_rate"]))
+            if sid not in run.track:
+                # first tasking: from a prior pointing well inside the budget since scenario start
+                tgt_state = place(site, 2.0, 0.9, 2000.0, rand_vel(rng))
+                Lp = site.look(tgt_state)
+                prior = (rotate_from(Lp["sez"], min(0.5 * rate * now, 2.5), rng), 0.0)
+                prim.eci_state = tgt_state
+                run.attempt(sa, prim, tgt_state, [], "two-step-first", prior)
+            else:
+                b_prev, t_prev = run.track[sid]
+                budget = rate * (now - t_prev)
+                f = (0.6, 1.4)[(n + int(now)) % 2] if budget * 1.4 < math.pi else 0.6
+                ang = min(f * budget, 3.0)
+                tgt_state = place_sez(site, rotate_from(b_prev, ang, rng), 2000.0, rand_vel(rng))
+                prim.eci_state = tgt_state
+                run.attempt(sa, prim, tgt_state, [], "two-step-next", None, tracked=(b_prev, t_prev))
+            run.track[sid] = run.after
+    finally:
+        prim.eci_state = saved
+
+
 def synthetic(run: Runner, rng, scale: int, select):
     """(b) placements chosen by the driver: edges of every constraint +- delta, seam, zenith."""
     app = run.app
@@ -464,7 +542,10 @@ def synthetic(run: Runner, rng, scale: int, select):
             if run.meta[sa.simulation_id]["origin"].endswith("twilight site"):
                 _twilight_scenes(run, rng, sa, prim)
             elif select(i):
+                s = sa.sensors
+                keep = (np.array(s.boresight, float).copy(), float(s.time_last_tasked))
                 _synthetic_sensor(run, rng, sa, prim, [b1, b2, b3], scale)
+                sa.updateInfo({"boresight": keep[0], "time_last_tasked": type(s.time_last_tasked)(keep[1])})
     finally:
         for t, st in zip(tgts, saved):
             t.eci_state = st
@@ -485,7 +566,7 @@ def _synthetic_sensor(run: Runner, rng, sa, prim, bgs, scale):   # noqa: C901, P
     m = run.meta[sa.simulation_id]
     kind = str(getattr(m["cfg"]["sensor"]["type"], "value", m["cfg"]["sensor"]["type"]))
     host = run.host_kind(sa)
-    P = G.sensor_params(s, kind, host)
+    P = G.sensor_params(s, kind, host, m["cfg"]["sensor"])
     site, _ = run.site_of(sa)
     k = run.k
     now = float(sa.time)
@@ -557,6 +638,17 @@ def _synthetic_sensor(run: Runner, rng, sa, prim, bgs, scale):   # noqa: C901, P
                    bg_states=[place(site, (azp - half_az - sgn * d) % G.TWO_PI, elp, r_nom, rand_vel(rng))])
                 go("fov-edge-el", place(site, azp, elp + half_el + sgn * d, r_nom, rand_vel(rng)), est,
                    bg_states=[place(site, azp, elp - half_el + sgn * d, r_nom, rand_vel(rng))])
+    # -- 4b. non-square rectangular field of view: offsets BETWEEN the two half-extents
+    if P["fov"][0] == "rect" and abs(half_az - half_el) > 1e-3:
+        mid = 0.5 * (half_az + half_el)
+        azp = az_mid
+        elp = min(max(min(el_mid, 1.0), e0 + mid + 0.02), e1 - mid - 0.02)
+        est = place(site, azp, elp, r_nom, [0, 0, 0])
+        for sgn in (-1, 1):
+            beside = place(site, (azp + sgn * mid) % G.TWO_PI, elp, r_nom, rand_vel(rng))
+            above = place(site, azp, elp + sgn * mid, r_nom * 1.05, rand_vel(rng))
+            go("fov-between", beside, est, bg_states=[above, place(site, azp, elp, r_nom * 0.9, rand_vel(rng))])
+            go("fov-between", above, est, bg_states=[beside])
     # -- 5. range limits
     for lim in (P["min_range"], P["max_range"]):
         if lim is None or not (50.0 < lim < 1e5):
@@ -688,7 +780,9 @@ def classify(inv: str, rec: dict, inp: dict) -> tuple[str, str]:
             if m["r"] == "fov" and vec.get("fov") == 1 and inp["outcome"]["fov"][0] == "rect":
                 azp = inp["pointing_azel"][0]
                 azt = inp["target_azelrng"][m["t"]][0]
-                if abs(azp - azt) > math.pi:
+                elp, elt = inp["pointing_azel"][1], inp["target_azelrng"][m["t"]][1]
+                tight = min(inp["outcome"]["fov"][1:]) / 2.0       # inside whichever way the extents are read
+                if abs(azp - azt) > math.pi and abs(G.wrap_pi(azp - azt)) < tight and abs(elp - elt) < tight:
                     return ("rectfov-seam-not-wrapped", f"{who}: miss 'Field of View' although the target is inside the "
                             f"rectangular field of view across the 0/360 seam (pointing az {math.degrees(azp):.4f}, "
                             f"target az {math.degrees(azt):.4f} deg)")
@@ -705,6 +799,8 @@ def classify(inv: str, rec: dict, inp: dict) -> tuple[str, str]:
                             f"{who}: observation reported although constraint(s) {sorted(set(bad))} fail")
         return "obs-not-allowed", f"{who}: observation reported that the constraints do not allow"
     if inv == "BackgroundNeedsSlew_impl":
+        if p["slew"] != 0 and o["bs"] == 3:
+            return classify("BoresightUpdatedIffSlew_impl", rec, inp)
         return ("background-obs-after-failed-slew", f"{who}: serendipitous observation reported although the commanded "
                 "pointing was not reached (canSlew false, boresight unchanged)")
     if inv == "ExactlyOneMissForPrimary_impl":
@@ -714,6 +810,20 @@ def classify(inv: str, rec: dict, inp: dict) -> tuple[str, str]:
     if inv == "BackgroundOnlyObservations_impl":
         return "background-miss-record", f"{who}: serendipitous attempt produced a miss record / duplicate / disabled-flag observation"
     if inv == "BoresightUpdatedIffSlew_impl":
+        oc = inp["outcome"]
+        b_new = max(abs(a - b) for a, b in zip(oc["boresight_after"], inp["pointing_sez"])) <= 1e-9
+        b_old = oc["boresight_after"] == inp["prior_boresight"]
+        t_new = oc["time_last_tasked_after"] == inp["time"]
+        t_old = oc["time_last_tasked_after"] == inp["prior_time_last_tasked"]
+        if p["slew"] == 1 and b_new and t_old and not t_new:
+            return ("time-last-tasked-not-updated-after-slew", f"{who}: the sensor slewed (boresight = commanded pointing) but "
+                    f"time_last_tasked stayed {oc['time_last_tasked_after']} instead of {inp['time']}: later slew "
+                    "reachability is judged from a stale time")
+        if p["slew"] == 1 and t_new and b_old and not b_new:
+            return ("boresight-not-updated-after-slew", f"{who}: time_last_tasked updated but the boresight was not moved")
+        if p["slew"] == 0 and (b_new or t_new) and o["bs"] != 2:
+            return ("pointing-state-changed-without-slew", f"{who}: boresight/time_last_tasked changed although the "
+                    "commanded pointing is not reachable")
         return (f"boresight-bs{o['bs']}-slew{p['slew']}", f"{who}: boresight/time_last_tasked state {o['bs']} "
                 f"(0 unchanged, 1 updated, 3 other) with slew reachability {p['slew']}")
     return inv, f"{who}: {inv}"
@@ -764,45 +874,37 @@ def validate(ctx: Ctx, records, inputs):
     ctx.extra["records_flagged"] = len(flagged)
 
 
-def binding_selftest(ctx: Ctx, records):
-    """Binding mutants (DESIGN.md 8): corrupt one logged field of real, accepted records; TLC must reject each."""
-    def find(pred):
-        return next((copy.deepcopy(r) for r in records if pred(r)), None)
+def binding_selftest(ctx: Ctx):
+    """Binding mutants (DESIGN.md 8): hand-written records (independent of anything the implementation
+    returned): the sound ones must be accepted as behaviours of SensorChain, each corrupted one must be
+    rejected for exactly the property its corruption breaks."""
+    ones = {c: 1 for c in G.CONSTRAINTS}
 
-    cases = []
-    r = find(lambda r: r["out"]["obsN"][0] == 1 and r["p"]["los"] == 1)
-    if r:
-        r["p"]["los"] = 0
-        cases.append(("ObservationAllowed_impl", r))
-    r = find(lambda r: any(m["t"] == 0 and m["r"] not in ("slew",) and r["p"][m["r"]] == 0 for m in r["out"]["miss"]))
-    if r:
-        r["p"][r["out"]["miss"][0]["r"]] = 1
-        cases.append(("MissReasonTrue_impl", r))
-    r = find(lambda r: r["out"]["bs"] == 1 and r["p"]["slew"] == 1)
-    if r:
-        r["out"]["bs"] = 0
-        cases.append(("BoresightUpdatedIffSlew_impl", r))
-    r = find(lambda r: len(r["out"]["miss"]) == 1 and r["out"]["obsN"][0] == 0)
-    if r:
-        r["out"]["miss"] = r["out"]["miss"] * 2
-        cases.append(("ExactlyOneMissForPrimary_impl", r))
-    r = find(lambda r: len(r["bg"]) >= 1 and r["out"]["obsN"][1] == 0 and r["bg"][0]["fov"] == 0)
-    if r:
-        r["out"]["miss"] = [*r["out"]["miss"], {"t": 1, "r": "fov"}]
-        cases.append(("BackgroundOnlyObservations_impl", r))
-    r = find(lambda r: r["out"]["meas"] and max(r["out"]["meas"]) <= 100)
-    if r:
-        r["out"]["meas"] = [101]
-        cases.append(("Measurement_impl", r))
-    r = find(lambda r: len(r["bg"]) >= 1 and r["out"]["obsN"][1] == 1 and r["p"]["slew"] == 1)
-    if r:
-        r["p"]["slew"] = 0
-        for b in r["bg"]:
-            b["slew"] = 0
-        r["out"].update(bs=0, obsN=[0, *r["out"]["obsN"][1:]], miss=[{"t": 0, "r": "slew"}], meas=r["out"]["meas"][-1:])
-        cases.append(("BackgroundNeedsSlew_impl", r))
-    if len(cases) < 5:
-        raise tlc.MachineryError(f"binding self-test: only {len(cases)} corruptible records found")
+    def rec(p=None, bg=(), out=None, kind="adv_radar", host="ground", calc=True):
+        return {"kind": kind, "host": host, "calcBg": calc, "p": {**ones, **(p or {})},
+                "bg": [{**ones, **b} for b in bg], "out": out}
+
+    good = [
+        rec(bg=[{}], out={"bs": 1, "obsN": [1, 1], "miss": [], "stray": 0, "meas": [3, 40]}),
+        rec(p={"los": 0}, bg=[{"fov": 0}], out={"bs": 1, "obsN": [0, 0], "miss": [{"t": 0, "r": "los"}], "stray": 0, "meas": []}),
+        rec(p={"slew": 0}, bg=[{"slew": 0}], out={"bs": 0, "obsN": [0, 0], "miss": [{"t": 0, "r": "slew"}], "stray": 0, "meas": []}),
+        rec(p={"limb": 0, "flux": 2}, kind="optical", host="space", calc=False,
+            out={"bs": 1, "obsN": [0], "miss": [{"t": 0, "r": "flux"}], "stray": 0, "meas": []}),
+    ]
+    bad = [
+        ("ObservationAllowed_impl", rec(p={"los": 0}, out={"bs": 1, "obsN": [1], "miss": [], "stray": 0, "meas": [1]})),
+        ("MissReasonTrue_impl", rec(p={"los": 0}, out={"bs": 1, "obsN": [0], "miss": [{"t": 0, "r": "az"}], "stray": 0, "meas": []})),
+        ("MissReasonTrue_impl", rec(p={"los": 0}, out={"bs": 1, "obsN": [0], "miss": [{"t": 0, "r": "limb"}], "stray": 0, "meas": []})),
+        ("BoresightUpdatedIffSlew_impl", rec(out={"bs": 0, "obsN": [1], "miss": [], "stray": 0, "meas": [1]})),
+        ("BoresightUpdatedIffSlew_impl", rec(out={"bs": 3, "obsN": [1], "miss": [], "stray": 0, "meas": [1]})),
+        ("ExactlyOneMissForPrimary_impl", rec(p={"el": 0}, out={"bs": 1, "obsN": [0], "miss": [{"t": 0, "r": "el"}] * 2, "stray": 0, "meas": []})),
+        ("ExactlyOneMissForPrimary_impl", rec(p={"el": 0}, out={"bs": 1, "obsN": [0], "miss": [], "stray": 0, "meas": []})),
+        ("BackgroundOnlyObservations_impl", rec(bg=[{"fov": 0}], out={"bs": 1, "obsN": [1, 0], "miss": [{"t": 1, "r": "fov"}], "stray": 0, "meas": [1]})),
+        ("Measurement_impl", rec(out={"bs": 1, "obsN": [1], "miss": [], "stray": 0, "meas": [101]})),
+        ("BackgroundNeedsSlew_impl", rec(p={"slew": 0}, bg=[{"slew": 0}],
+                                         out={"bs": 0, "obsN": [0, 1], "miss": [{"t": 0, "r": "slew"}], "stray": 0, "meas": [1]})),
+    ]
+    cases = [("", g) for g in good] + bad
     d = ctx.sub("binding")
     (d / "records.json").write_text(json.dumps([c[1] for c in cases]))
     res = tlc.require_ok(tlc.run_tlc("TraceSensorChain", trace_cfg(), d, workers=2, cont=True,
@@ -813,10 +915,13 @@ def binding_selftest(ctx: Ctx, records):
         mm = re.findall(r"/\\ i = (\d+)", "\n".join(states))
         if mm:
             hit.setdefault(int(mm[-1]) - 1, set()).add(inv)
-    missed = [exp for k, (exp, _) in enumerate(cases) if exp not in hit.get(k, set())]
-    if missed:
-        raise tlc.MachineryError(f"binding self-test: corrupted records not rejected for {missed}")
-    ctx.extra["binding_mutants_rejected"] = [c[0][:-5] for c in cases]
+    ok_rows = {row[0] - 1 for row in res.tuples("MATCHED")}
+    wrong = [(k, exp, sorted(hit.get(k, ()))) for k, (exp, _) in enumerate(cases)
+             if (exp and hit.get(k, set()) != {exp}) or (not exp and (k in hit or k not in ok_rows))]
+    if wrong:
+        raise tlc.MachineryError(f"binding self-test (hand-written records) failed: {wrong}")
+    ctx.extra["binding_selftest"] = {"sound_records_accepted": len(good),
+                                     "corrupted_records_rejected": [c[0][:-5] for c in bad]}
 
 
 # ----------------------------------------------------------------------------- entry points
@@ -857,7 +962,7 @@ def run(ctx: Ctx):
     coverage_selftest(ctx, cov)
     t2 = time.time()
     validate(ctx, records, inputs)
-    binding_selftest(ctx, records)
+    binding_selftest(ctx)
     ctx.extra["wall_breakdown_s"] = {"drive": round(t0 - ctx.t0, 1), "wait_for_spec_level": round(t1 - t0, 1),
                                      "trace_validation": round(time.time() - t2, 1)}
     ctx.extra["attempts"] = stats
@@ -900,6 +1005,7 @@ def drive(ctx: Ctx, rng):
         for n in range(nsteps):
             app_a.stepForward()
             _advance_truth_only(app_b, app_a)
+            two_step(runs[1], rng)
             for run in runs:
                 sweep(run, rng, per_sensor=5 if ctx.quick else 12, max_bg=3)
                 if n == nsteps - 1:
